@@ -2,7 +2,7 @@
    model side of the correspondence lives here (in Gallina); the OCaml driver is generic. *)
 From Coq Require Import Strings.String.
 From ZipV Require Import Base.Bytes Base.Outcome Gen.GenLib Gen.TypesGen Model.Dos Extract.Obs.
-From ZipV Require Import Spec.PathSpec Model.Path Spec.Utf8 Model.Cp437 Gen.CompressionGen Model.Readers Model.Reader Spec.Crc32Spec Model.Stream Spec.Aes Spec.Sha1.
+From ZipV Require Import Spec.PathSpec Model.Path Spec.Utf8 Model.Cp437 Gen.CompressionGen Model.Readers Model.Reader Spec.Crc32Spec Model.Stream Spec.Aes Spec.Sha1 Spec.Fs Model.Extract.
 Open Scope string_scope.
 Open Scope N_scope.
 
@@ -219,6 +219,118 @@ Definition visit_obs (data : bytes) : obs :=
   OL [OL (map (fun e => OB (f_name (se_file e))) files);
       OL (map (fun f => OL [OB (f_name f); oopt ON (unix_mode f); OB (f_comment f)]) metas); res_obs (fun _ => T "unit") r].
 
+(* ---------- extraction (C07) *)
+(* read an entry to the end: bytes delivered and how it ended *)
+Fixpoint read_all_split {S} (rd : reader S) (fuel : nat) (s : S) (acc : bytes) : bytes * option err :=
+  match fuel with
+  | O => (acc, None)
+  | Datatypes.S f =>
+      match rd s 8192 with
+      | Ok (bs, s') => if len bs =? 0 then (acc, None) else read_all_split rd f s' (acc ++ bs)
+      | Err e => (acc, Some e)
+      | Panic _ => (acc, None)
+      end
+  end.
+
+Definition xentry_of (data : bytes) (ar : archive) (i : N) (f : zfd) : xentry :=
+  match by_index dummy_kdf ar i with
+  | Err e => {| x_name := f_name f; x_open := Some e; x_data := []; x_read_err := None; x_mode := unix_mode f |}
+  | Panic _ => {| x_name := f_name f; x_open := Some ENotFound; x_data := []; x_read_err := None; x_mode := unix_mode f |}
+  | Ok (f', _, c) =>
+      let '(d, e) := read_all_split (zipfile_read dummy_blk dummy_mac crc32) (Datatypes.S (length data)) (make_stored f' c) [] in
+      {| x_name := f_name f; x_open := None; x_data := d; x_read_err := e; x_mode := unix_mode f |}
+  end.
+
+Fixpoint xentries (data : bytes) (ar : archive) (i : N) (fs : list zfd) : list xentry :=
+  match fs with [] => [] | f :: r => xentry_of data ar i f :: xentries data ar (i + 1) r end.
+
+Definition sxentry_of (data : bytes) (e : sentry) : xentry :=
+  let '(d, er) := read_all_split (zipfile_read dummy_blk dummy_mac crc32) (Datatypes.S (length data)) (sentry_reader data e) [] in
+  {| x_name := f_name (se_file e); x_open := None; x_data := d; x_read_err := er; x_mode := None |}.
+
+Definition xres_obs (r : xres) : obs :=
+  match r with
+  | XOk => T "Ok"
+  | XErr e => OL [T "Err"; err_obs e]
+  | XFs _ => OL [T "Err"; T "Fs"]
+  end.
+
+Definition loc_path (l : loc) : bytes := join x2f l.
+
+Fixpoint insert_node (x : loc * node) (l : list (loc * node)) : list (loc * node) :=
+  match l with
+  | [] => [x]
+  | y :: r => if bytes_ltb (loc_path (fst x)) (loc_path (fst y)) then x :: l else y :: insert_node x r
+  end.
+
+Definition node_obs (x : loc * node) : obs :=
+  match snd x with
+  | NDir m => OL [OB (loc_path (fst x)); T "D"; ON m]
+  | NFile c m => OL [OB (loc_path (fst x)); T "F"; ON m; OB c]
+  end.
+
+Definition tree_obs (t : fs) : obs := OL (map node_obs (fold_right insert_node [] t)).
+
+Definition sandbox0 : fs :=
+  [([[x74]], NDir 493); ([[x63; x61; x6e; x61; x72; x79]], NDir 493);
+   ([[x63; x61; x6e; x61; x72; x79]; [x66]], NFile [x63; x61; x6e; x61; x72; x79] 420)].
+Definition target : loc := [[x74]].
+
+Definition extract_obs (data : bytes) (mode : N) : obs :=
+  if mode =? 0 then
+    match open data with
+    | Err e => OL [OL [T "OpenErr"; err_obs e]; tree_obs sandbox0]
+    | Panic p => OL [OL [T "PANIC"; site_obs p]; tree_obs sandbox0]
+    | Ok ar =>
+        let '((t, _), r) := extract 18 target (sandbox0, []) (xentries data ar 0 (ar_files ar)) in
+        OL [xres_obs r; tree_obs t]
+    end
+  else
+    let fuel := Datatypes.S (length data) in
+    let '(es, r) := stream_entries fuel data 0 in
+    let '(st1, r1) := sextract_files 18 target (sandbox0, []) (map (sxentry_of data) es) in
+    match r1 with
+    | XOk =>
+        match r with
+        | Err e => OL [OL [T "Err"; err_obs e]; tree_obs (fst st1)]
+        | Panic p => OL [OL [T "PANIC"; site_obs p]; tree_obs (fst st1)]
+        | Ok p =>
+            (* metadata phase: the first central record without its signature, then the rest *)
+            match parse_central_inner data p with
+            | Err e => OL [OL [T "Err"; err_obs e]; tree_obs (fst st1)]
+            | Panic q => OL [OL [T "PANIC"; site_obs q]; tree_obs (fst st1)]
+            | Ok (f, p') =>
+                let '(st2, r2) := sextract_meta target st1 (f_name f) (unix_mode f) in
+                match r2 with
+                | XOk =>
+                    (fix metas (fuel : nat) (pos : N) (st : fs * log) : obs :=
+                       match fuel with
+                       | O => OL [T "OUT-OF-FUEL"]
+                       | Datatypes.S fu =>
+                           match u32_at data pos with
+                           | Ok sig =>
+                               if negb (sig =? Gen.SpecGen.CENTRAL_DIRECTORY_HEADER_SIGNATURE) then OL [T "Ok"; tree_obs (fst st)]
+                               else match parse_central_inner data (pos + 4) with
+                                    | Ok (g, q) =>
+                                        let '(st', rr) := sextract_meta target st (f_name g) (unix_mode g) in
+                                        match rr with
+                                        | XOk => metas fu q st'
+                                        | bad => OL [xres_obs bad; tree_obs (fst st')]
+                                        end
+                                    | Err e => OL [OL [T "Err"; err_obs e]; tree_obs (fst st)]
+                                    | Panic q => OL [OL [T "PANIC"; site_obs q]; tree_obs (fst st)]
+                                    end
+                           | Err e => OL [OL [T "Err"; err_obs e]; tree_obs (fst st)]
+                           | Panic q => OL [OL [T "PANIC"; site_obs q]; tree_obs (fst st)]
+                           end
+                       end) fuel p' st2
+                | bad => OL [xres_obs bad; tree_obs (fst st2)]
+                end
+            end
+        end
+    | bad => OL [xres_obs bad; tree_obs (fst st1)]
+    end.
+
 Fixpoint insert_sorted (x : bytes) (l : list bytes) : list bytes :=
   match l with
   | [] => [x]
@@ -257,6 +369,10 @@ Definition dispatch_reader (op : bytes) (args : list arg) : option obs :=
   else if is_op op "visit" then
     match args with
     | [AB data] => Some (visit_obs data)
+    | _ => None end
+  else if is_op op "extract" then
+    match args with
+    | [AB data; AN mode] => Some (extract_obs data mode)
     | _ => None end
   else if is_op op "byname" then
     match args with
